@@ -23,6 +23,8 @@ def jobs(tier):
                  replace=["c_str", "strcmp"], link=["src/Alloc.c"],
                  assumptions=["libc strcmp is the unsigned-byte lexicographic order (assumed contract: some function of the two buffers)",
                               "c_str contract (buffer of a String object) - discharged by C09.dispatch.cmp_string"]))
+    from props import C16
+    J += C16.jobs(tier, only=["cmp"], prefix="C09")      # String_Cmp on concrete-length texts with symbolic bytes against the definition of the order (independent of how it is computed)
     J.append(Job("C09.Type_Cmp.k1", "C09", "K1", "Type/k1_cmp.c", "h_Type_Cmp", ["Type_Cmp", "Type_Builtin_Name"], enforce="Type_Cmp",
                  replace=["cast", "strcmp"], link=["src/Alloc.c"],
                  assumptions=["cast contract (identity on an object of the requested type) - discharged by C08.cast"]))
